@@ -305,6 +305,7 @@ def run(rep, info, model, tier, seed):
         else:
             mreq.append([31, b"", 0, []])
     mres = model.run(mreq) if model is not None else None
+    rep.watch_extraction(model, mreq)
     dis = 0
     for i, sc in enumerate(scs):
         events, ops, escaped, run_ = run_case(sc)
